@@ -89,20 +89,20 @@ def liftOutcome : Outcome Aln → PRes
   | .hang => .hang
 
 def modelParse (fmt : String) (o : POpts) (bs : List Byte) : Option PRes :=
-  if !allAscii bs then none else
+  -- every model is defined on ALL byte strings (rune decoding modelled: Model/Fmt/Utf8.lean); `none` = no claim
   match fmt with
-  | "fasta" => some (liftOutcome (Fasta.parse Gen.FmtFacts.fasta_rejects_empty o bs))
+  | "fasta" => some (liftOutcome (Fasta.parseBytes Gen.FmtFacts.fasta_rejects_empty o bs))
   | "phylip" =>
-    match Phylip.parseOne Gen.FmtFacts.phylip_allocates_from_header o { inp := bs } with
+    match Phylip.parseOne Gen.FmtFacts.phylip_allocates_from_header o { inp := Utf8.norm bs } with
     | .ok (.slow, _) => none      -- allocation of 2^27 … 2^44 entries: machine dependent, not compared
     | r => some (Phylip.toOutcome r)
-  | "stockholm" => some (liftOutcome (Stockholm.parse Gen.FmtFacts.stockholm_markup_stops_at_eof
-      Gen.FmtFacts.stockholm_rejects_empty o bs))
-  | "clustal" => some (liftOutcome (Clustal.parse Gen.FmtFacts.clustal_checks_row_index o bs))
-  | "nexus" => some (liftOutcome (Nexus.parse ⟨Gen.FmtFacts.nexus_comment_stops_at_eof,
+  | "stockholm" => (Stockholm.parseBytes Gen.FmtFacts.stockholm_markup_stops_at_eof
+      Gen.FmtFacts.stockholm_rejects_empty o bs).map liftOutcome
+  | "clustal" => (Clustal.parseBytes Gen.FmtFacts.clustal_checks_row_index o bs).map liftOutcome
+  | "nexus" => (Nexus.parseBytes ⟨Gen.FmtFacts.nexus_comment_stops_at_eof,
       Gen.FmtFacts.nexus_rejects_negative_counts, Gen.FmtFacts.nexus_rejects_empty_rows,
       Gen.FmtFacts.nexus_keyword_rows_are_residues, Gen.FmtFacts.nexus_rejects_nested_begin,
-      Gen.FmtFacts.nexus_empty_command_is_noop, Gen.FmtFacts.nexus_rejects_second_data_block⟩ o bs))
+      Gen.FmtFacts.nexus_empty_command_is_noop, Gen.FmtFacts.nexus_rejects_second_data_block⟩ o bs).map liftOutcome
   | _ => none
 
 /-- what `buildAlign` of the harness does: AddSequence one by one under IGNORE_NONE -/
@@ -236,8 +236,7 @@ def encMulti (als : List Aln) (ok : Bool) : String :=
   s!"multi {als.length} {body} end={if ok then "ok" else "err"}"
 
 def modelMulti (o : POpts) (bs : List Byte) : String :=
-  if !allAscii bs then "unmodelled" else
-  match Phylip.parseMulti Gen.FmtFacts.phylip_allocates_from_header o (bs.length + 2) { inp := bs } [] with
+  match Phylip.parseMultiBytes Gen.FmtFacts.phylip_allocates_from_header o bs with
   | .done als ok => encMulti als ok
   | .slow => "unmodelled"
   | .stop .exit => "exit:1"
@@ -263,8 +262,8 @@ def handle0 : Handler := fun op args impl =>
     let bs ← unhexz hex
     let len ← parseInt? len
     let m :=
-      if !allAscii bs || len < 0 then "unmodelled" else
-      match Partition.parse ⟨Gen.FmtFacts.partition_rejects_start_after_end, Gen.FmtFacts.partition_guards_step_overflow⟩
+      if len < 0 then "unmodelled" else
+      match Partition.parseBytes ⟨Gen.FmtFacts.partition_rejects_start_after_end, Gen.FmtFacts.partition_guards_step_overflow⟩
           len.toNat bs with
       | .ok ps =>
         let names := if ps.names.isEmpty then "_" else
